@@ -100,3 +100,77 @@ func zzDecide(access []IPAccess, ents []zzEnt, allowAll bool, a int) {
 		verif.Cover("allowed")
 	}
 }
+
+type zzChainCB struct {
+	api.StreamFilterChainFactoryCallbacks
+	receivers []api.StreamReceiverFilter
+	phases    []api.ReceiverFilterPhase
+}
+
+func (c *zzChainCB) AddStreamReceiverFilter(f api.StreamReceiverFilter, p api.ReceiverFilterPhase) {
+	c.receivers = append(c.receivers, f)
+	c.phases = append(c.phases, p)
+}
+
+// VerifC14_IPAccessConfigured: from the filter's configuration (the map a listener's
+// stream_filters entry carries) through the real factory and CreateFilterChain to the
+// decision: default action allow / deny / absent, zero to two ip lists. Whatever the
+// configuration, the factory registers the filter in every stream's chain (a configured
+// filter is never silently left out), and the registered filter decides as configured - a
+// filter that denies by default and lists nobody refuses everybody with 403.
+func VerifC14_IPAccessConfigured() {
+	conf := map[string]interface{}{"header": "x-real-ip"}
+	da := verif.Choose("default_action", 3) // absent, allow, deny
+	if da == 1 {
+		conf["default_action"] = "allow"
+	}
+	if da == 2 {
+		conf["default_action"] = "deny"
+	}
+	n := verif.Choose("lists", 3)
+	var ents []zzEnt
+	var ips []interface{}
+	for i := 0; i < n; i++ {
+		e := zzEnt{deny: verif.Choose("deny", 2) == 1, rng: verif.Choose("range", len(zzRanges))}
+		action := "allow"
+		if e.deny {
+			action = "deny"
+		}
+		ips = append(ips, map[string]interface{}{"action": action, "addrs": []interface{}{zzRanges[e.rng]}})
+		ents = append(ents, e)
+	}
+	if n > 0 {
+		conf["ips"] = ips
+	}
+	fac, err := CreateIPAccessFactory(conf)
+	verif.Assert(err == nil && fac != nil, "a valid ip_access configuration was refused")
+	if fac == nil {
+		return
+	}
+	cb := &zzChainCB{}
+	fac.CreateFilterChain(context.Background(), cb)
+	verif.Assert(len(cb.receivers) == 1, "a configured ip_access filter was not put into the stream's filter chain (it never runs: nobody is refused)")
+	if len(cb.receivers) != 1 {
+		return
+	}
+	a := verif.Choose("address", len(zzAddrs))
+	h := &zzHandler{}
+	cb.receivers[0].SetReceiveFilterHandler(h)
+	st := cb.receivers[0].OnReceive(context.Background(), protocol.CommonHeader{"x-real-ip": zzAddrs[a]}, nil, nil)
+	deny := da == 2
+	if zzAddrs[a] != "not-an-address" {
+		for _, e := range ents {
+			if zzIn[a][e.rng] {
+				deny = e.deny
+				break
+			}
+		}
+	}
+	if deny {
+		verif.Assert(st == api.StreamFilterStop && h.replies == 1 && h.code == 403, "a request the configuration denies was not stopped and answered with 403")
+		verif.Cover("denied")
+	} else {
+		verif.Assert(st == api.StreamFilterContinue && h.replies == 0, "a request the configuration allows was stopped or answered")
+	}
+	verif.Cover("end")
+}
